@@ -572,6 +572,11 @@ pub fn main_shading(args: &Args) {
                     m.windows[0].geometry.position = None;
                     m.windows[0].name = "NOPOS".to_string();
                 }
+                if nw > 2 {
+                    // a window whose wall is not in the model
+                    m.windows[2].wall = bemodel::Uuid::from_u128(0xdead_beef);
+                    m.windows[2].name = "NOPOS".to_string();
+                }
                 if nw > 1 {
                     let wid = m.windows[1].wall;
                     m.windows[1].name = "NOPOS".to_string();
@@ -585,6 +590,11 @@ pub fn main_shading(args: &Args) {
             }
         };
         m.meta.climate = zone;
+        // a shade that has no position hides nothing, however large (it is nowhere)
+        if gi % 2 == 0 {
+            m.shades.push(shade_of("NOWHERE", WallGeom { tilt: 90.0, azimuth: 0.0, position: None, polygon: rect(400.0, 400.0) }));
+            m.shades.push(shade_of("NOWHERE2", WallGeom { tilt: 0.0, azimuth: 0.0, position: None, polygon: vec![point![-200.0, -200.0], point![200.0, -200.0], point![200.0, 200.0], point![-200.0, 200.0]] }));
+        }
         // far away dummies on some models
         let nfar = [0usize, 0, 29, 31, 60][rng.below(5)];
         if kind != 5 {
